@@ -412,6 +412,43 @@ func iteInt(c bool, a, b int) int   { return 0 }
 func iteStr(c bool, a, b string) string { return "" }
 `
 
+// replayHelpers replace genHelpers when a contract clause is EVALUATED on the real code during replay: quantifiers
+// iterate, out(w) reads the bytes collected by the replay's writer, and everything that denotes ghost state or an
+// identity the running program cannot observe panics with govcGhost (the clause is then "not evaluable").
+var replayHelpers = func() string {
+	s := genHelpers
+	rep := func(sig, body string) {
+		i := strings.Index(s, sig)
+		if i < 0 {
+			panic("replayHelpers: " + sig)
+		}
+		j := strings.Index(s[i:], "\n")
+		s = s[:i] + sig + " " + body + s[i+j:]
+	}
+	rep("func __forall(lo, hi int, f func(int) bool) bool", "{ for i := lo; i < hi; i++ { if !f(i) { return false } }; return true }")
+	rep("func __exists(lo, hi int, f func(int) bool) bool", "{ for i := lo; i < hi; i++ { if f(i) { return true } }; return false }")
+	rep("func out(w interface{}) []byte", "{ if g, ok := w.(interface{ govcBytes() []byte }); ok { return g.govcBytes() }; panic(govcGhost{}) }")
+	rep("func iteInt(c bool, a, b int) int", "{ if c { return a }; return b }")
+	rep("func iteStr(c bool, a, b string) string", "{ if c { return a }; return b }")
+	for _, g := range []string{"func seq(x interface{}) []interface{}", "func misc(x interface{}) int", "func sameSeq(a, b []interface{}) bool",
+		"func sameStr(a, b string) bool", "func sameHdr(a, b interface{}) bool", "func distinctBacking(a, b interface{}) bool",
+		"func mapValuesNonNil(m interface{}) bool", "func isFresh(x interface{}) bool", "func mapAt(m interface{}, key interface{}) interface{}",
+		"func mapAll(m interface{}) interface{}", "func mapHas(m interface{}, key interface{}) bool", "func disk(path string) int",
+		"func diskOfFile(f interface{}) int", "func pathKey(path string) int", "func ghostInt(x interface{}, name string) int",
+		"func ghostBool(x interface{}, name string) bool", "func ghostBytes(x interface{}, name string) []byte",
+		"func ghostSeq(x interface{}, name string) []interface{}", "func held(mu interface{}) bool", "func typeIs(x interface{}, name string) bool",
+		"func allocated(p interface{}) bool", "func sameSlice(a, b []byte) bool", "func subslice(a, b []byte) bool", "func sliceOff(a, b []byte) int"} {
+		rep(g, "{ panic(govcGhost{}) }")
+	}
+	return "\ntype govcGhost struct{}\n" + s
+}()
+
+// ReplayText is the generated file with the replay helpers (uninterpreted spec functions panic with govcGhost).
+func ReplayText(gen string) string {
+	gen = strings.Replace(gen, genHelpers, replayHelpers, 1)
+	return strings.ReplaceAll(gen, `panic("uninterpreted")`, "panic(govcGhost{})")
+}
+
 // GenLine records which clause an emitted statement belongs to.
 type GenStmt struct {
 	FC     *FuncContract
